@@ -65,6 +65,22 @@ Theorem C16_polyline_siblings_keep_the_same_vertices : forall pl qsqrt (L : list
 Proof. exact polyline_siblings_keep_the_same_vertices. Qed.
 Print Assumptions C16_polyline_siblings_keep_the_same_vertices.
 
+(* the conclusion on a concrete chain in a tilted plane (3-4-5 frame), evaluated with the executable root: both siblings drop the two redundant
+   vertices and keep the corners *)
+Example C16_polyline_siblings_concrete :
+  let pl := mkPlane (mkV3 0 (3 # 5) (4 # 5)) (mkV3 1 2 3) ((3 # 5) * 2 + (4 # 5) * 3) (mkV3 1 0 0) (mkV3 0 (4 # 5) (-3 # 5)) in
+  let L := [mkV2 0 0; mkV2 1 0; mkV2 2 0; mkV2 2 1; mkV2 2 2; mkV2 0 2] in
+  frame_ok pl /\
+  pl3_vertices (Polyline3D_remove_colinear_vertices qsqrt_exec (mkPolyline3 (map (emb pl) L) false) (1 # 100))
+  = map (emb pl) (pl2_vertices (Polyline2D_remove_colinear_vertices (mkPolyline2 L false) (1 # 100))) /\
+  length (pl2_vertices (Polyline2D_remove_colinear_vertices (mkPolyline2 L false) (1 # 100))) = 4%nat.
+Proof.
+  cbv zeta. split; [|split].
+  - unfold frame_ok, unit3, dot3, cross3, v3eq. cbn [pl_n pl_x pl_y pl_o pl_k v3x v3y v3z]. repeat split; reflexivity.
+  - vm_compute. reflexivity.
+  - vm_compute. reflexivity.
+Qed.
+
 Example C16_quad_nonvacuous :
   let p0 := mkV2 0 0 in let p1 := mkV2 4 0 in let p2 := mkV2 3 2 in let p3 := mkV2 1 2 in
   0 < tri2 p0 p1 p2 /\ 0 < tri2 p2 p3 p0 /\ quad_centroid2 p0 p1 p2 p3 =2= mkV2 2 (8 # 9).
